@@ -1,12 +1,11 @@
 (* From tracers to schemas: tracers that are equal up to the order of record fields give schemas that are equal up to the
    order of struct fields; with Nested_order: from_samples is order independent on nested data. *)
-From Verif Require Import Tracer Coerce Coerce_proofs Null_proofs Struct_proofs Project_proofs FlatRecords_proofs Nested_order FromType_proofs.
+From Verif Require Import Tracer Coerce Coerce_proofs Null_proofs Struct_proofs Project_proofs FlatRecords_proofs Nested_order FromType_proofs Sort_proofs.
 From Coq Require Import Permutation.
 Local Open Scope nat_scope.
 
 (* the first field called k of a schema struct *)
-Fixpoint sget (k : bytes) (fs : list SField) : option SField :=
-  match fs with [] => None | f :: r => if bytes_eqb (sf_name f) k then Some f else sget k r end.
+Notation sget := sgetT.
 
 (* equality of schema fields up to the order of struct children *)
 Inductive sfeq : SField -> SField -> Prop :=
@@ -52,6 +51,10 @@ Section Lift.
     - apply (IH rest k Hr).
   Qed.
 
+  Lemma to_field_mstruct name path n s trs :
+    to_field o [] name path (TStruct n true s trs) = do fs <- tf_struct o path trs ;; Ok (mkSF name (SStruct (sort_fields fs)) n (Some SMapAsStruct)).
+  Proof. reflexivity. Qed.
+
   Lemma to_field_struct' name path n s trs :
     to_field o [] name path (TStruct n false s trs) = do fs <- tf_struct o path trs ;; Ok (mkSF name (SStruct fs) n None).
   Proof. reflexivity. Qed.
@@ -59,7 +62,7 @@ Section Lift.
   Theorem to_field_teq : forall t t', teq t t' -> forall name path path' f f',
     to_field o [] name path t = Ok f -> to_field o [] name path' t' = Ok f' -> sfeq f f'.
   Proof.
-    induction 1 as [n|n p|n i i' Hi IH|n s s' fs fs' Hnone Hsome IH]; intros name path path' f f' H1 H2.
+    induction 1 as [n|n p|n i i' Hi IH|n s s' fs fs' Hnone Hsome IH|n s s' fs fs' Hnone Hsome IH]; intros name path path' f f' H1 H2.
     - cbn [to_field get_overwrite find option_map] in H1, H2. destruct (o_allow_null o); [|discriminate]. injection H1 as <-. injection H2 as <-. repeat constructor.
     - cbn [to_field get_overwrite find option_map] in H1, H2. destruct p; try (injection H1 as <-; injection H2 as <-; repeat constructor).
       + destruct (o_allow_null o); [|discriminate]. injection H1 as <-. injection H2 as <-. repeat constructor.
@@ -75,6 +78,19 @@ Section Lift.
         * destruct Hnone as [Hx _]. specialize (Hx eq_refl). discriminate.
         * rewrite A, B. tauto.
       + intros k fa fb Ga Gb. pose proof (tf_struct_sget path fs l k Hl) as A. pose proof (tf_struct_sget path' fs' l' k Hl') as B.
+        destruct (fget2 k fs) as [[t1 l1]|] eqn:E1; [|rewrite A in Ga; discriminate].
+        destruct (fget2 k fs') as [[t2 l2]|] eqn:E2; [|rewrite B in Gb; discriminate].
+        destruct A as (fa' & Ea & Ta). destruct B as (fb' & Eb & Tb). rewrite Ea in Ga. rewrite Eb in Gb. injection Ga as <-. injection Gb as <-.
+        apply (IH k t1 l1 t2 l2 E1 E2 _ _ _ _ _ Ta Tb).
+    - rewrite to_field_mstruct in H1, H2. apply bind_ok in H1 as (l & Hl & H1). apply bind_ok in H2 as (l' & Hl' & H2).
+      injection H1 as <-. injection H2 as <-. constructor. constructor.
+      + intros k. rewrite !sget_sort. pose proof (tf_struct_sget path fs l k Hl) as A. pose proof (tf_struct_sget path' fs' l' k Hl') as B. specialize (Hnone k).
+        destruct (fget2 k fs) as [[t1 l1]|], (fget2 k fs') as [[t2 l2]|].
+        * destruct A as (fa & -> & _). destruct B as (fb & -> & _). split; discriminate.
+        * destruct Hnone as [_ Hx]. specialize (Hx eq_refl). discriminate.
+        * destruct Hnone as [Hx _]. specialize (Hx eq_refl). discriminate.
+        * rewrite A, B. tauto.
+      + intros k fa fb Ga Gb. rewrite sget_sort in Ga, Gb. pose proof (tf_struct_sget path fs l k Hl) as A. pose proof (tf_struct_sget path' fs' l' k Hl') as B.
         destruct (fget2 k fs) as [[t1 l1]|] eqn:E1; [|rewrite A in Ga; discriminate].
         destruct (fget2 k fs') as [[t2 l2]|] eqn:E2; [|rewrite B in Gb; discriminate].
         destruct A as (fa' & Ea & Ta). destruct B as (fb' & Eb & Tb). rewrite Ea in Ga. rewrite Eb in Gb. injection Ga as <-. injection Gb as <-.
